@@ -55,7 +55,8 @@ def setup():
             jax.config.update("jax_compilation_cache_dir", cache)
             jax.config.update("jax_persistent_cache_min_compile_time_secs", 0)
             jax.config.update("jax_persistent_cache_min_entry_size_bytes", -1)
-            jax.config.update("jax_compilation_cache_max_size", 3 * 1024**3)
+            # (jax_compilation_cache_max_size is NOT set: its LRU implementation needs the `filelock` package, which is
+            #  not installed, and JAX then silently disables the cache; runner.prune_xla_cache() bounds the directory)
         except Exception:  # noqa: BLE001
             pass
     import jaxley  # noqa: F401
